@@ -91,9 +91,8 @@ static void run_and_compare(const char * sigclass, const char * descr, int expec
         return;
     }
     if (expect_errors >= 0) {
-        int n310 = 0, other = 0, e;
-        for (e = 0; e < tc_nerr; e++) { if (tc_errs[e] == SCPI_ERROR_SYSTEM_ERROR) n310++; else other++; }
-        if (n310 != expect_errors || other) { char sig[96]; snprintf(sig, sizeof sig, "c17/%s/refusal-error", sigclass); mc_viol(sig, "%s: %d x -310 and %d other errors, expected %d x -310", descr, n310, other, expect_errors); return; }
+        /* "refused with an error": one error per refused call, whichever number the library chooses for it (-310 on the pinned tree) */
+        if (tc_nerr != expect_errors) { char sig[96]; snprintf(sig, sizeof sig, "c17/%s/refusal-error", sigclass); mc_viol(sig, "%s: %d errors raised (first %d), expected %d (one per refused data call)", descr, tc_nerr, tc_nerr ? tc_errs[0] : 0, expect_errors); return; }
     }
     n_nontrivial++;
     mc_outcome(h ^ EN);
@@ -242,9 +241,9 @@ int main(int argc, char ** argv) {
             tc_reinit(&T, cmds); tr_reset();
             SCPI_Input(&T.ctx, mu[k].msg, (int) strlen(mu[k].msg));
             n_cases++;
-            for (e = 0; e < tc_nerr; e++) if (tc_errs[e] == SCPI_ERROR_SYSTEM_ERROR) n310++;
+            (void) e; n310 = tc_nerr;          /* errors raised, whatever their number */
             if (OUTN != strlen(mu[k].exp) || memcmp(OUT, mu[k].exp, OUTN) || n310 != mu[k].n310)
-                mc_viol("c17/unit/stray-data-after-unfinished-block-of-previous-unit", "message [%s]: output [%s] with %d x -310, expected [%s] with %d x -310", mc_es(mu[k].msg), mc_e(OUT, OUTN), n310, mc_es(mu[k].exp), mu[k].n310);
+                mc_viol("c17/unit/stray-data-after-unfinished-block-of-previous-unit", "message [%s]: output [%s] with %d errors, expected [%s] with %d errors", mc_es(mu[k].msg), mc_e(OUT, OUTN), n310, mc_es(mu[k].exp), mu[k].n310);
             else n_nontrivial++;
         }
     }
